@@ -161,6 +161,25 @@ def run(chk):
 
     stale_state_rule(chk, "C11.H.no-stale-state", _mk_call(FILE, "sensitization_transform", "g"), circuit_snapshot, FILE, "sensitization_transform")
     stale_state_rule(chk, "C11.H.no-stale-state", _mk_call(FILE, "sensitivity_transform", "o"), circuit_snapshot, FILE, "sensitivity_transform")
+    # the counter inside sensitivity_transform is built from the generators of logic.py: what those generators were asked for before
+    # (another width, a carry input, a carry output) must not show in the transform - one environment for the whole sequence against
+    # a fresh one per call
+    from ..pkgenv import Package as _Pkg
+    from ..stale import base_model as _base
+
+    PSEQ = _Pkg(repo, overrides=overrides())
+    for gen_call in (("adder", 1, True, True), ("adder", 2, True, False), ("adder", 3, False, True), ("full_adder",), ("half_adder",), ("popcount", 3), ("adder", 1, True, True)):
+        PSEQ.call("logic.py", *gen_call)
+    for kname, mk in (("base", _base), ("majority", lambda: _b2({"a": ("input", []), "b": ("input", []), "c": ("input", []), "ab": ("and", ["a", "b"]), "bc": ("and", ["b", "c"]), "ac": ("and", ["a", "c"]),
+                                                                   "o": ("or", ["ab", "bc", "ac"])}, outputs=["o"]))):
+        cseq = mk()
+        node = sorted(cseq.outputs())[0]
+        r_seq = PSEQ.call(FILE, "sensitivity_transform", cseq.copy(), node)
+        r_new = _Pkg(repo, overrides=overrides()).call(FILE, "sensitivity_transform", cseq.copy(), node)
+        n_eval += 2
+        same = r_seq[0] == r_new[0] and (r_seq[0] != "return" or circuit_snapshot(r_seq[1]) == circuit_snapshot(r_new[1]))
+        chk.ob("C11.H.no-state-between-calls", f"sensitivity_transform::{kname}::after calls to the generators of logic.py", same, file=FILE, func="sensitivity_transform",
+               fact={"differs_from_a_fresh_environment": not same, "after": str(r_seq)[:100] if not same else None}, expect="the transform does not depend on earlier calls to logic.adder / popcount")
     chk.floor("evaluations", n_eval, 300)
 
 
